@@ -14,6 +14,9 @@ WARMUP = "__warmup__"
 def tnum(prog, x):
     """numeric (SI) value of a program time/delay literal, with the same arithmetic the library performs"""
     if isinstance(x, list):
+        from vlib.proggen import DUR_FACTOR
+        if x[1] in DUR_FACTOR:
+            return float(x[0]) * DUR_FACTOR[x[1]]        # (the same product the library forms, with this oracle's own factor)
         from pydsol.core.units import Duration
         return float(Duration(x[0], x[1]))
     if prog["clock"] == "duration":
